@@ -56,6 +56,7 @@ type PropSpec struct {
 	Outside     []string      `json:"outside"`
 	Assumptions []string      `json:"assumptions"`
 	Encoded     []string      `json:"functions_of_interest"`
+	CommonSkip  []string      `json:"common_exclude"`
 }
 
 type Registry struct {
@@ -129,7 +130,7 @@ func buildOverlay(p *PropSpec, scratch string, withTest bool) (map[string]string
 		return nil, err
 	}
 	for _, e := range cents {
-		if !strings.HasSuffix(e.Name(), ".go") {
+		if !strings.HasSuffix(e.Name(), ".go") || contains(p.CommonSkip, e.Name()) {
 			continue
 		}
 		if strings.HasSuffix(e.Name(), "_test.go") && !withTest {
@@ -204,7 +205,7 @@ func nativeReplay(p *PropSpec, cases []replayCase, scratch string) ([]replayResu
 		}
 	}
 	runOnce := func(only int) (string, error) {
-		args := []string{"test", "-v", "-vet=off", "-count=1", "-run", "^TestVerifReplay$", "-timeout", "30m",
+		args := []string{"test", "-tags", "verif", "-v", "-vet=off", "-count=1", "-run", "^TestVerifReplay$", "-timeout", "30m",
 			"-modfile=" + filepath.Join(scratch, "go.mod"), "-overlay", ovPath, "./" + p.Dir}
 		cmd := exec.Command("go", args...)
 		cmd.Dir = modRoot
